@@ -693,3 +693,74 @@ func OnceDo(o *sync.Once, f func()) {
 		}
 	}
 }
+
+// ---------------------------------------------------------------- select (see the instrumenter's rewriteSelect)
+
+// SelectOrder returns the clause positions in the order in which their communications are
+// tried: a permutation chosen by the schedule (Go chooses among the ready ones at random).
+func SelectOrder(idx ...int) []int {
+	activity++
+	out := append([]int(nil), idx...)
+	for i := len(out) - 1; i > 0; i-- {
+		j := schedRand(i + 1)
+		out[i], out[j] = out[j], out[i]
+	}
+	return out
+}
+
+// TryRecv receives without blocking: (value, ok as in `v, ok := <-ch`, whether anything was received).
+func TryRecv[T any](ch <-chan T) (v T, ok bool, got bool) {
+	if ch == nil {
+		return
+	}
+	select {
+	case v, ok = <-ch:
+		epoch++
+		return v, ok, true
+	default:
+	}
+	if cap(ch) == 0 {
+		id := chanID(ch)
+		for _, t := range tasks {
+			if t != cur && t.waitCh == id && t.waitSend && !t.matched {
+				v = t.slot.(T)
+				t.matched = true
+				epoch++
+				return v, true, true
+			}
+		}
+	}
+	return
+}
+
+// TrySend sends without blocking.
+func TrySend[T any](ch chan<- T, v T) bool {
+	if ch == nil {
+		return false
+	}
+	if cap(ch) == 0 {
+		id := chanID(ch)
+		for _, t := range tasks {
+			if t != cur && t.waitCh == id && !t.waitSend && !t.matched {
+				t.slot, t.matched = v, true
+				epoch++
+				return true
+			}
+		}
+		sendClosedCheck(ch, v)
+		return false
+	}
+	select {
+	case ch <- v:
+		epoch++
+		return true
+	default:
+		return false
+	}
+}
+
+func ZeroOf[T any](ch <-chan T) (z T) { return }
+
+// SendVal gives the value of a send clause the channel's element type (it is evaluated once,
+// when the select is entered).
+func SendVal[T any](ch chan<- T, v T) T { return v }
